@@ -279,6 +279,7 @@ class Rec:
         self.pools = {}     # scheduler id -> [objects]
         self.sched = {}     # scheduler id -> scheduler object
         self.cleanfail = set()   # ids whose clean action raises
+        self.built_always = {}   # DoDoer id -> the `always` it was constructed with (run sequences)
         self.viaopts = set()     # DoDoer ids that get their doers through do(doers=...) instead of the constructor
         self.clock = None        # SimClock of a real=True run
         self.supervisors = set() # scheduler ids whose recur() override catches the exceptions of their children
@@ -1435,6 +1436,16 @@ def run_sequence(case):
                 doist.extend([build(rec, ("leaf", stray, "doify", "ok", [([], ("yield", 0.0))] * 3), 0)])
             first = len(rec.log)
             doers = [rec.obj[s[1]] if s[1] in rec.obj else build(rec, s, 0) for s in specs]
+            # per-run options of re-used DoDoers: `always` of this call's spec is injected through .opts when it differs from what
+            # the object was built with (a run depends only on what it was given)
+            def set_opts(ss):
+                for sp in ss:
+                    if sp[0] == "group" and sp[1] in rec.obj:
+                        o = rec.obj[sp[1]]
+                        built = rec.built_always.setdefault(sp[1], bool(sp[3]))
+                        o.opts = dict(always=bool(sp[3])) if bool(sp[3]) != built else {}
+                        set_opts(sp[4])
+            set_opts(specs)
             rec.rosters[0] = doers
             if not doers:      # the empty argument in its three usual forms
                 doers = [[], (), iter(())][len(out) % 3]
@@ -1503,8 +1514,13 @@ def gen_runs(rng):
     for k in range(rng.choice([2, 2, 3, 4])):
         if rng.random() < 0.2:
             pool, specs = [], []                                 # an explicitly EMPTY doers argument: the run has no doers at all
-        elif progs and rng.random() < 0.4:
+        elif progs and rng.random() < 0.5:
             pool, specs = rng.choice(progs)                      # same doer objects again
+            if rng.random() < 0.5:                               # ... with another per-run `always` for its DoDoers (via .opts)
+                flip = rng.random() < 0.7
+                def fl(ss):
+                    return [s if s[0] == "leaf" else ("group", s[1], s[2], (not s[3]) if flip else s[3], fl(s[4]), s[5]) for s in ss]
+                specs = fl(specs)
         else:
             g = _Gen(rng, rng.choice(["time", "plain", "faults0"]) if False else rng.choice(["time", "plain"]))
             g.tock = t
